@@ -28,6 +28,7 @@ def main():
     tier = "quick"
     run_tests = False
     only_props = None
+    excl = []
     pats = []
     i = 0
     while i < len(args):
@@ -37,6 +38,8 @@ def main():
             run_tests = True; i += 1
         elif args[i] == "--props":
             only_props = args[i + 1].split(","); i += 2
+        elif args[i] == "--exclude":
+            excl = args[i + 1].split(","); i += 2
         else:
             pats.append(args[i]); i += 1
     muts = []
@@ -53,6 +56,8 @@ def main():
             muts.append(("seeded/" + os.path.basename(d), pf, props))
     if pats:
         muts = [m for m in muts if any(p in m[0] for p in pats)]
+    if excl:
+        muts = [m for m in muts if not any(m[0].endswith(x) for x in excl)]
     summary = []
     record = {}
     for name, patch, props in muts:
